@@ -319,8 +319,10 @@ func exec(op string) (string, string) {
 		}
 		return observe(b, ids), tag + shareTag(all)
 
-	case "redeem":
-		if len(f) != 7 {
+	case "redeem", "redeemN":
+		// redeemN: ONE fee distribution function (as the redemption action holds one) is first
+		// evaluated on request lists of the sizes in <pre>, then used for <times> assemblies.
+		if (f[0] == "redeem" && len(f) != 7) || (f[0] == "redeemN" && len(f) != 9) {
 			return "bad-op", "bad"
 		}
 		key, pkh, ok := checkWallet(f[1], f[2])
@@ -360,6 +362,35 @@ func exec(op string) (string, string) {
 			shape = append(shape, tbtc.RedemptionChangeLast)
 		default:
 			return "bad-op", "bad"
+		}
+		if f[0] == "redeemN" {
+			times, e := strconv.Atoi(f[8])
+			if e != nil || times < 1 || times > 4 {
+				return "bad-op", "bad"
+			}
+			dist := tbtc.VerifC26RedemptionFeeDistribution(fee)
+			for _, ps := range hx.SplitList(f[7]) {
+				pn, e := strconv.Atoi(ps)
+				if e != nil || pn < 1 || pn > 1000 {
+					return "bad-op", "bad"
+				}
+				dist(make([]*tbtc.RedemptionRequest, pn))
+			}
+			var obs []string
+			tag := "redeemN"
+			for t := 0; t < times; t++ {
+				b, err := tbtc.VerifC26AssembleRedemptionTransactionWith(fc, key, toUtxo(main), reqs, dist, shape...)
+				if err != nil {
+					obs = append(obs, errClass(err))
+					tag = "redeemN+err"
+					continue
+				}
+				obs = append(obs, observe(b, ids))
+			}
+			if len(reqs) >= 2 && tag == "redeemN" {
+				tag += "+multi"
+			}
+			return strings.Join(obs, " | "), tag
 		}
 		b, err := tbtc.VerifC26AssembleRedemptionTransaction(fc, key, toUtxo(main), reqs, fee, shape...)
 		if err != nil {
@@ -443,6 +474,29 @@ func exec(op string) (string, string) {
 			tag = "msweep+main"
 		}
 		return observe(b, ids), tag + shareTag([]*utxo{moved, main})
+
+	case "sharesN":
+		// one distribution function evaluated on consecutive request lists of sizes n1,n2,...
+		if len(f) != 3 {
+			return "bad-op", "bad"
+		}
+		fee, e := strconv.ParseInt(f[1], 10, 64)
+		if e != nil {
+			return "bad-op", "bad"
+		}
+		dist := tbtc.VerifC26RedemptionFeeDistribution(fee)
+		var parts []string
+		for _, ns := range hx.SplitList(f[2]) {
+			n, e := strconv.Atoi(ns)
+			if e != nil || n < 1 || n > 100000 {
+				return "bad-op", "bad"
+			}
+			parts = append(parts, hx.JoinInts(dist(make([]*tbtc.RedemptionRequest, n))))
+		}
+		if len(parts) == 0 {
+			return "bad-op", "bad"
+		}
+		return "shares=" + strings.Join(parts, "|"), "sharesN"
 
 	case "shares":
 		if len(f) != 3 {
@@ -704,7 +758,20 @@ func gen(r *hx.Rng, n int, tier string) []string {
 				main = strings.Join(p, ":")
 			}
 			shape := hx.Pick(r, []string{"d", "0", "1", "1"})
-			ops = append(ops, fmt.Sprintf("redeem %d %s %s %s %d %s", k, pkh, main, hx.JoinStrs(reqs), genFee(r, nr, redeemable), shape))
+			fee := genFee(r, nr, redeemable)
+			if r.Chance(1, 3) {
+				pre := "-"
+				if r.Bool() {
+					var ps []int
+					for j := r.Range(1, 3); j > 0; j-- {
+						ps = append(ps, hx.Pick(r, []int{1, 2, 3, nr + 1, r.Range(1, 30)}))
+					}
+					pre = hx.JoinInts(ps)
+				}
+				ops = append(ops, fmt.Sprintf("redeemN %d %s %s %s %d %s %s %d", k, pkh, main, hx.JoinStrs(reqs), fee, shape, pre, r.Range(1, 3)))
+			} else {
+				ops = append(ops, fmt.Sprintf("redeem %d %s %s %s %d %s", k, pkh, main, hx.JoinStrs(reqs), fee, shape))
+			}
 		case 6, 7: // moving funds
 			main := genOptUtxo(r, 1, 25, "wp", "sSx")
 			nt := count(r)
@@ -740,7 +807,15 @@ func gen(r *hx.Rng, n int, tier string) []string {
 			if r.Chance(1, 10) {
 				fee = int64(r.U64()>>2) - (1 << 61)
 			}
-			ops = append(ops, fmt.Sprintf("shares %d %d", fee, nn))
+			if r.Chance(1, 3) {
+				ns := []int{nn}
+				for j := r.Range(1, 3); j > 0; j-- {
+					ns = append(ns, hx.Pick(r, []int{nn, 1, 2, r.Range(1, 60)}))
+				}
+				ops = append(ops, fmt.Sprintf("sharesN %d %s", fee, hx.JoinInts(ns)))
+			} else {
+				ops = append(ops, fmt.Sprintf("shares %d %d", fee, nn))
+			}
 		}
 	}
 	return ops
